@@ -12,7 +12,7 @@ from fractions import Fraction as F
 import numpy as np
 
 from harness.fieldp import red, P, Unrepresentable
-from harness.proxies import Tape, Boom, TapeMismatch
+from harness.proxies import Tape, Boom, TapeMismatch, BOOMS
 
 warnings.filterwarnings("ignore")
 
@@ -71,6 +71,9 @@ class Scenario:
         self.tables = kw.get("tables", "random")          # "random" | "spec:scalar" | "spec:multi" (IncExplainer.tla)
         self.out_scale = kw.get("out_scale", 1)           # magnitude of the model outputs (exact factor)
         self.loss_scale = kw.get("loss_scale", 1)         # magnitude of the loss values (exact factor)
+        self.shuffle_keys = kw.get("shuffle_keys", False)  # the key order of the instance dicts changes from call to call
+        self.extreme = kw.get("extreme", False)            # legal but extreme random outcomes (first / last row, ...)
+        self.fault_type = kw.get("fault_type", 0)          # exception class of injected faults (index into proxies.BOOMS)
         self.wrap = kw.get("wrap", None)                  # None | "sklearn": the model function is a library Wrapper
         self.prefill = kw.get("prefill", 0)               # observations already in a user-supplied storage (warm start)
         self.default_value = kw.get("default_value", None)   # DefaultImputer: one value for all features (None: (i+1)/2)
@@ -140,6 +143,7 @@ class Recorder:
         self.draws = []
         self.cb = 0                 # callback ordinal inside the call (model, loss, impute, store)
         self.fault_at = None
+        self.fault_type = getattr(self, "fault_type", 0)
         self.in_imp = 0
         self.imp_done = 0
         self.raised_at = None
@@ -149,7 +153,7 @@ class Recorder:
         self.total_callbacks += 1
         if self.fault_at is not None and self.cb == self.fault_at:
             self.raised_at = (kind, self.cb)
-            raise Boom("injected fault in %s callback #%d" % (kind, self.cb))
+            raise BOOMS[self.fault_type % len(BOOMS)]("injected fault in %s callback #%d" % (kind, self.cb))
 
 
 def build(sc):
@@ -454,17 +458,25 @@ def run_scenario(sc, tape_mode="log", script=None, keep_raw=False, provider=None
     random.seed(sc.seed)
     np.random.seed(sc.seed % (2 ** 32))
     tape_ref = [None]
-    with Tape(mode=tape_mode, script=script, sink=sink) as tape:
+    if sc.extreme and tape_mode == "log":
+        tape_cm = Tape(mode="extreme", sink=sink, rng=random.Random(sc.seed + 5))
+    else:
+        tape_cm = Tape(mode=tape_mode, script=script, sink=sink)
+    with tape_cm as tape:
         tape_ref[0] = tape
         for ci, (xs, y, n_over, upd) in enumerate(sc.stream):
             if provider is not None:
                 tape.script.extend(provider.on_begin(ci, int(ex.seen_samples)))
-            x = {nm: conv(v) for nm, v in zip(names, xs)}
+            pairs = list(zip(names, xs))
+            if sc.shuffle_keys:
+                random.Random(sc.seed * 31 + ci).shuffle(pairs)
+            x = {nm: conv(v) for nm, v in pairs}
             x_copy = dict(x)
             names_copy = list(names)
             keep.append(x)
             arrivals[id(x)] = ci + 1
             cur["x"], cur["y"] = x, y
+            rec.fault_type = sc.fault_type + ci
             rec.reset()
             rec.fault_at = sc.faults.get(ci)
             pre = proj.state()
@@ -632,6 +644,7 @@ def random_scenario(rng, cls=None, quickness=1, **force):
         stream.append((xs, y, n_over, upd))
     kw = dict(cls=cls, d=d, names=names, n_inner=n_inner, dynamic=dynamic, alpha=alpha, companion=rng.random() < 0.3,
               prefill=(rng.choice([0, 0, 0, 2, 5]) if storage is not None else 0),
+              shuffle_keys=rng.random() < 0.3, extreme=rng.random() < 0.2, fault_type=rng.randrange(7),
               out_scale=rng.choice([1, 1, 1, F(1, 10 ** 10), F(1, 10 ** 6), 10 ** 7]),
               loss_scale=rng.choice([1, 1, 1, F(1, 10 ** 9), 10 ** 8]),
               bigger=(cls == "sage" and rng.random() < 0.3), storage=storage,
